@@ -55,7 +55,7 @@ def shards(tier):
 
 def floors(tier):
     f = {"positive": 20000, "negative": 10000, "through_validator": 1000, "hostile_first": 300,
-         "hostile_middle": 300, "hostile_last": 300, "distinct_nontrivial": 10000, "short_lived_resolutions": 5000, "whole_documents_through_resolver": 100,
+         "hostile_middle": 300, "hostile_last": 300, "distinct_nontrivial": 10000, "short_lived_resolutions": 5000, "whole_documents_through_resolver": 100, "document_named_like_a_metaschema": 150, "document_named_like_a_store_entry": 80,
          "reused_validator_pointer_sequences": 500}
     for k in ("missing_key", "index_eq_len", "index_gt_len", "non_index_token", "token_on_scalar", "token_on_string",
               "disguised_in_range_index"):
@@ -190,12 +190,30 @@ def through_validator(ctx, rng, doc):
     frag = next(iter(encodings(rng, ["x"] + tokens(path))))
     for d in impl.DRAFTS:
         schema = {"$ref": "#" + frag, "x": d2}
-        case = {"draft": d, "schema": schema}
+        store = None
+        r = rng.random()
+        if r < 0.25:
+            # the document calls itself what a bundled metaschema is called (a patched copy of a draft): its own
+            # pointers address IT
+            schema = {"properties": {"p": {"$ref": "#" + frag}}, "x": d2, impl.IDKW[d]: rng.choice([impl.META_ID[d], impl.META_ID[7].rstrip("#"), impl.META_ID[4]])}
+            ctx.count("document_named_like_a_metaschema")
+        elif r < 0.4:
+            # ... or what a document in the caller's store is called
+            schema = {"properties": {"p": {"$ref": "#" + frag}}, "x": d2, impl.IDKW[d]: "http://vf.example/c14/doc.json"}
+            store = {"http://vf.example/c14/doc.json": {"x": {"decoy": True}}}
+            ctx.count("document_named_like_a_store_entry")
+        case = {"draft": d, "schema": schema, "store": store}
         ctx.count("through_validator")
         ctx.case([d, schema])
         try:
-            v = impl.CLS[d](schema)
-            ok = v.is_valid(marker) and not v.is_valid(marker + "x")
+            if "properties" in schema:
+                from jsonschema import RefResolver
+                kw = {"store": store} if store is not None else {}
+                v = impl.CLS[d](schema, resolver=RefResolver.from_schema(schema, id_of=impl.CLS[d].ID_OF, **kw))
+                ok = v.is_valid({"p": marker}) and not v.is_valid({"p": marker + "x"})
+            else:
+                v = impl.CLS[d](schema)
+                ok = v.is_valid(marker) and not v.is_valid(marker + "x")
         except Exception as e:
             ctx.violation("validator-raised", case, "%s: %s" % (type(e).__name__, str(e)[:150]))
             continue
@@ -430,8 +448,12 @@ def replay(ctx, rec):
                 ctx.violation("replay", c, "instance %r gave %r, expected %r" % (inst, got, want))
                 break
     else:
-        v = impl.CLS[c["draft"]](c["schema"])
+        if c.get("store") is not None:
+            from jsonschema import RefResolver
+            v = impl.CLS[c["draft"]](c["schema"], resolver=RefResolver.from_schema(c["schema"], id_of=impl.CLS[c["draft"]].ID_OF, store=c["store"]))
+        else:
+            v = impl.CLS[c["draft"]](c["schema"])
         try:
-            list(v.iter_errors("x"))
+            list(v.iter_errors({"p": "x"} if "properties" in c["schema"] else "x"))
         except Exception as e:
             ctx.violation("replay", c, "%s" % type(e).__name__)
